@@ -111,7 +111,55 @@ def run_unit(ctx, unit_name, targets=None, search_map=None, only_labels=None, ti
         return None
     cl = V.classify(u, res)
     js = res.get('json')
-    if cl['compile_errors'] or js is None:
+    forced = set()
+    if cl['compile_errors']:
+        # A function uses a construct outside the Verus subset (or no longer type-checks against the
+        # contracts).  Attribute each error to the extracted function it lies in; those functions are
+        # left unverified (external_body) so that the rest of the unit is still checked, and the paired
+        # search looks for a concrete witness for them.
+        ok = True
+        for e in cl['compile_errors']:
+            labs = set()
+            for sp in e.get('spans', []):
+                if sp.get('label'):
+                    labs.add(sp['label'])
+            if not labs:
+                ok = False
+            forced |= labs
+        if ok and forced:
+            try:
+                u2 = V.Unit(unit_name)
+                text2 = u2.assemble(force_external=forced)
+                with open(path, 'w') as f:
+                    f.write(text2)
+                res2 = V.run_verus(path, timeout=timeout)
+                cl2 = V.classify(u2, res2)
+                if not res2.get('timeout') and not cl2['compile_errors'] and res2.get('json') is not None:
+                    first = '; '.join(e['message'] for e in cl['compile_errors'][:2])
+                    u, text, res, cl, js = u2, text2, res2, cl2, res2.get('json')
+                    for lab in sorted(forced):
+                        if only_labels is not None and lab not in only_labels:
+                            continue
+                        s_ = Searcher(unit_name, ctx)
+                        w = None
+                        for tgt in (search_map or {}).get(lab, [lab]):
+                            w = s_.search(tgt)
+                            if w:
+                                break
+                        if w:
+                            ctx.violation('%s|%s|unverifiable+witness' % (unit_name, lab),
+                                          '%s: body outside the Verus subset (%s); paired search found a failing input' % (lab, first[:200]),
+                                          first, witness=w, replay_cmd=s_.replay_cmd(w), engine='verus:' + unit_name + '+search')
+                        else:
+                            ctx.undecide('%s: body uses a construct outside the supported Verus subset (%s); left unverified, '
+                                         'paired search found no failing input' % (lab, first[:300]))
+                else:
+                    forced = set()
+            except (LostAnchor, V.Unsupported):
+                forced = set()
+        else:
+            forced = set()
+    if (cl['compile_errors'] and not forced) or js is None:
         msg = '; '.join(e['message'] for e in cl['compile_errors'][:3]) or res['stderr'][-800:]
         ctx.undecide('unit %s: extracted code outside the supported subset / does not compile under Verus: %s' % (unit_name, msg))
         for e in cl['compile_errors'][:5]:
